@@ -23,7 +23,7 @@ pub struct Base {
     pub toks: Vec<RTok>,
 }
 
-const EXTRA: &[&str] = &[";", "1.5", "7", "-1", "4294967296", "99999999999999999999", "0", "nm", "\"s\"", "\"\"", "\"\u{e9}\"", "\"\u{e9}]\"", "\"\u{20ac}\"", "\"[\u{1f600}\"", "\"unterminated", "-", ".", "1e9", "-inf", "#c",
+const EXTRA: &[&str] = &[";", "1.5", "5.8", "5.4", "7", "-1", "4294967296", "99999999999999999999", "0", "nm", "\"s\"", "\"\"", "\"\u{e9}\"", "\"\u{e9}]\"", "\"\u{20ac}\"", "\"[\u{1f600}\"", "\"unterminated", "-", ".", "1e9", "-inf", "#c",
     // tokens that begin with a non-ASCII character of Unicode's numeric classes (2- and 3-byte), alone, followed
     // by ASCII digits, and followed by a multi-byte white-space character (U+3000)
     "\u{b2}", "\u{663}7", "\u{2460}", "\u{bd}x", "\u{ff11}\u{3000}x",
@@ -62,6 +62,9 @@ const CONTEXTS: &[(&str, &str)] = &[
     ("library-start", ""),
     ("library", "VERSION 5.8 ;"),
     ("library-5.4", "VERSION 5.4 ;"),
+    // a second VERSION statement after version-dependent statements were accepted under the first
+    ("version-restated-after-5.4-statements", "VERSION 5.4 ;\nNAMESCASESENSITIVE ON ;\nNOWIREEXTENSIONATPIN ON ;\nVERSION"),
+    ("version-restated-after-5.8-statements", "VERSION 5.8 ;\nNOWIREEXTENSIONATPIN ON ;\nVERSION"),
     ("busbitchars", "BUSBITCHARS"),
     ("units", "VERSION 5.8 ;\nUNITS"),
     ("propertydefinitions", "VERSION 5.8 ;\nPROPERTYDEFINITIONS"),
